@@ -107,12 +107,7 @@ def run(ctx):
                            'the values that were just appended')
         else:
             ctx.ok('R-RECOVER', 'D1', step, ic, construct, inst)
-    # D2a: validating values write precedes the index-row write
-    for ic in icalls:
-        ctx.decide(must_precede(step, ic, vcalls), 'R-ORDER', 'D2', step, ic, 'values-before-index-row',
-                   f'{step.qualname}: the values write (which validates atom shape and type) precedes the index-row write',
-                   detail='the index row is written first: an item with the wrong atom or rank raises after the '
-                          'indices file has already grown (array unopenable)')
+    values_before_index(ctx, step, vcalls, icalls, 'D2')
     # D2b: item length taken from the raw item before the first write; row = [start, start + n]
     params = [p for p in step.params if p != 'self']
     item = params[0]
@@ -159,3 +154,12 @@ def run(ctx):
                 ctx.decide(ok, 'R-FLOW', 'D2', f, node, 'count-after-both-writes',
                            f'{f.qualname}: the length accumulators are increased only after the two-step append returned',
                            detail='an item is counted before both of its writes completed')
+
+
+def values_before_index(ctx, step, vcalls, icalls, clause):
+    # the validating values write precedes the index-row write
+    for ic in icalls:
+        ctx.decide(must_precede(step, ic, vcalls), 'R-ORDER', clause, step, ic, 'values-before-index-row',
+                   f'{step.qualname}: the values write (which validates atom shape and type) precedes the index-row write',
+                   detail='the index row is written first: an item with the wrong atom or rank raises after the '
+                          'indices file has already grown (array unopenable)')
